@@ -149,3 +149,73 @@ def entries_per_element(ctx, func, iter_text, is_head):
         joined = isinstance(p, (ast.Assign, ast.Return))
     ok = joined and is_head(norm(e), v)
     return 'gen', ((1, 1) if ok else (0, 0))
+
+
+# --------------------------------------------------------------------------- symbolic rows
+def printed_value(e):
+    """the one value a line consists of:  str(X) / '%d' % X / f'{X}'  -> X ; a line that is a value
+    already -> that value; None for lines with literal text around the value or several values"""
+    if isinstance(e, ast.Call) and isinstance(e.func, ast.Name) and e.func.id == 'str' and len(e.args) == 1 and not e.keywords:
+        return e.args[0]
+    if isinstance(e, ast.BinOp) and isinstance(e.op, ast.Mod) and isinstance(e.left, ast.Constant) and \
+       isinstance(e.left.value, str) and e.left.value in ('%d', '%s', '%g', '%i', '%r'):
+        r = e.right
+        if isinstance(r, ast.Tuple):
+            return r.elts[0] if len(r.elts) == 1 else None
+        return r
+    if isinstance(e, ast.JoinedStr) and len(e.values) == 1 and isinstance(e.values[0], ast.FormattedValue):
+        return e.values[0].value
+    return None
+
+
+def lines_with_loops(path):
+    """[(line expression, loops it is written in (tuple of iterable texts), stmt)] in the order written:
+    X.append(E) / X.extend([...]) statements with the loops of the walk they ran in; elements
+    *_each(E, IT) count as written inside "each of IT" """
+    from .symx import _is_each
+    out = []
+
+    def add(e, loops, st):
+        if isinstance(e, ast.Starred):
+            e = e.value
+        if _is_each(e):
+            add(e.args[0], loops + (norm(e.args[1]),), st)
+        elif isinstance(e, (ast.List, ast.Tuple)) and loops and False:
+            pass
+        else:
+            out.append((e, loops, st))
+    for ev in path.events:
+        if ev[0] != 'call':
+            continue
+        c, st, loops = ev[1], ev[2], ev[3]
+        if not (isinstance(c.func, ast.Attribute) and len(c.args) == 1):
+            continue
+        if c.func.attr == 'append':
+            if isinstance(c.args[0], (ast.Tuple, ast.Dict)):
+                continue        # a row of a table being built, not a line of text
+            add(c.args[0], tuple(loops), st)
+        elif c.func.attr == 'extend':
+            a0 = c.args[0]
+            if isinstance(a0, (ast.List, ast.Tuple)):
+                for x in a0.elts:
+                    add(x, tuple(loops), st)
+            else:
+                add(a0, tuple(loops), st)
+    if not out and path.ret is not None:
+        from .symx import line_exprs
+        for e, st, it in line_exprs(path, with_iter=True):
+            out.append((e, (norm(it),) if it is not None else (), st))
+    return out
+
+
+def default_none_env(func):
+    """{parameter: None} for the parameters of func that default to None: the slice of the function a
+    call without those options runs (sections guarded by them fold away)"""
+    a = func.node.args
+    pos = a.posonlyargs + a.args
+    env = {p_.arg: d for p_, d in zip(pos[len(pos) - len(a.defaults):], a.defaults)
+           if isinstance(d, ast.Constant) and d.value is None}
+    for p_, d in zip(a.kwonlyargs, a.kw_defaults):
+        if isinstance(d, ast.Constant) and d.value is None:
+            env[p_.arg] = d
+    return env
